@@ -81,6 +81,29 @@ func evalCase(c *Case, drv *lib.Driver, guard bool) *caseResult {
 		}
 		j++
 	}
+	// the two other subscribers of the same feed: in-order subsequences too; the idle one holds
+	// the FIRST head set after it subscribed (a full slot skips later values)
+	for name, got := range map[string][]HeadJ{"slow": cr.obs.FeedSlow, "idle": cr.obs.FeedIdle} {
+		j := 0
+		for _, f := range got {
+			for j < len(cr.obs.Notes) && cr.obs.Notes[j] != f {
+				j++
+			}
+			if j == len(cr.obs.Notes) {
+				cr.findings = append(cr.findings, finding{sig: "l1head-feed-value-never-set",
+					what: fmt.Sprintf("the %s feed subscriber received %s which is not among the heads set, in order", name, (&f).String())})
+				break
+			}
+			j++
+		}
+	}
+	if len(cr.obs.Notes) > 0 && (len(cr.obs.FeedIdle) != 1 || cr.obs.FeedIdle[0] != cr.obs.Notes[0]) {
+		cr.mismatches = append(cr.mismatches, lib.Mismatch{Sig: "feed-slot-semantics: an idle subscriber must hold the first head set",
+			Input: c, Model: cr.obs.Notes[0], Impl: cr.obs.FeedIdle})
+	}
+	if cr.obs.EndedEarly && !c.ChainIDMismatch {
+		cr.mismatches = append(cr.mismatches, lib.Mismatch{Sig: "run-returned-before-cancel", Input: c, Impl: cr.obs.RunErr})
+	}
 	if c.ChainIDMismatch && !headEq(cr.obs.FinalHead, c.Stored) {
 		cr.findings = append(cr.findings, finding{sig: "l1head-written-despite-chain-id-mismatch",
 			what: "stored head changed although the L1 node is on another network"})
@@ -103,7 +126,7 @@ func evalCase(c *Case, drv *lib.Driver, guard bool) *caseResult {
 		fh := cr.obs.FinalHead
 		if top != nil && (fh == nil || (HeadJ{L2: top.L2, Hash: top.Hash, Root: top.Root}) != *fh) &&
 			(c.Stored == nil || c.StoredL1 < top.L1) {
-			cr.findings = append(cr.findings, finding{sig: "l1head-catchup-misses-highest-finalised-log",
+			cr.findings = append(cr.findings, finding{sig: catchupSig(c, fh),
 				what: fmt.Sprintf("CatchUpL1Head returned nil (latest %d, finalised %d then %d, chunk %d) with stored head %s; the provider's history has the state update of Starknet block %d in L1 block %d",
 					c.Latest, c.Fin1, c.Fin2, c.Chunk, fh.String(), top.L2, top.L1)})
 		}
@@ -334,6 +357,9 @@ func main() {
 	} else {
 		cases = append(cases, leadL11())
 		cases = append(cases, enumCases(f.Scale(3, 4))...)
+		cases = append(cases, boundaryCases()...)
+		cases = append(cases, faultCases()...)
+		cases = append(cases, exhaustiveCatchups(f.Scale(3, 4))...)
 		cases = append(cases, catchupGrid(r.Fork(1), f.Scale(400, 20000))...)
 		rg := r.Fork(4)
 		for i := 0; i < f.Scale(60, 1500); i++ {
@@ -453,7 +479,29 @@ func main() {
 			}
 		}
 		res.Compared(compared + cr.gethCompared)
+		for _, st := range cr.an.steps {
+			if st.what == "start-up gate" {
+				res.Hit("startup:" + st.expect)
+			}
+		}
+		if len(o.FeedIdle) > 0 && len(o.Notes) > 1 {
+			res.Hit("feed:idle-subscriber-skipped-later-heads")
+		}
+		if len(o.FeedSlow) < len(o.Notes) {
+			res.Hit("feed:slow-subscriber-missed-heads")
+		}
 		if c.Geth {
+			res.HitN("geth:decoy-logs-in-node", len(c.Decoys))
+			for _, op := range c.Ops {
+				if op.Kind == "finnotfound" {
+					res.Hit("geth:finalized-header-not-found")
+				}
+				for _, l := range op.Logs {
+					if l.Decoy != 0 {
+						res.Hit("geth:decoy-logs-in-node")
+					}
+				}
+			}
 			res.HitN("geth:logs-through-real-forwarder", len(o.Events))
 			rem, reorgs := 0, 0
 			prevRem := false
